@@ -50,6 +50,7 @@ const (
 const (
 	DSwitch = 0 // hand the baton to Task at Step
 	DGC     = 1 // run a garbage collection at Step
+	DClock  = 2 // the simulated clock jumps forward by V nanoseconds at Step
 )
 
 // Decision is one recorded scheduling/fault decision. A list of them is an
@@ -58,6 +59,7 @@ type Decision struct {
 	Step uint64 `json:"s"`
 	Task int32  `json:"t"`
 	Kind uint8  `json:"k,omitempty"`
+	V    int64  `json:"v,omitempty"`
 }
 
 // Config is everything the scheduler needs for one run. The harness fills it in
@@ -75,6 +77,7 @@ type Config struct {
 	StallPerm int    // per decision point: probability (‰) of stalling the current task
 	StallMean int    // mean stall length in steps (heavy tailed)
 	SyncQ     int    // PolSync: a lock release/acquire is a decision point with probability 1/SyncQ
+	ClockPerm int    // per decision point: probability (‰) of a clock jump (only meaningful when the library reads the clock)
 
 	Replay []Decision // PolReplay
 
@@ -89,6 +92,7 @@ type Stats struct {
 	Preempts    uint64 // of those, switches away from a task that was in the middle of an operation
 	Contended   uint64 // of those, the preempted operation's argument was in use by another mid-operation task
 	GCs         uint64
+	ClockJumps  uint64
 	Stalls      uint64 // stall faults started
 	StallOps    uint64 // operations completed by other tasks while some task was stalled mid-operation
 	SyncPoints  uint64 // lock release/acquire points passed inside operations
@@ -221,6 +225,7 @@ func Y(site uint32) {
 	if !active {
 		if counting && !countPaused {
 			count++
+			clockSteps++
 			if count > countCap {
 				counting = false
 				panic(Abort{"solo step cap"})
@@ -233,6 +238,7 @@ func Y(site uint32) {
 	}
 	me := cur
 	step++
+	clockSteps++
 	tsteps[me]++
 	if site < uint32(len(SiteHits)) {
 		SiteHits[site]++
@@ -538,8 +544,39 @@ func decide(site uint32) {
 	}
 }
 
+// ---- simulated clock (read by the ztime shim) ---------------------------------------
+
+var (
+	clockBase  int64  // nanoseconds added by jumps and by the harness between passes
+	clockSteps uint64 // one microsecond per step, in simulated runs and in solo passes alike
+	// ClockReads counts Now() calls (evidence: did the library read the clock at all?).
+	ClockReads uint64
+)
+
+// ClockNanos is the simulated time since the epoch of the simulated clock.
+//
+//go:norace
+func ClockNanos() int64 {
+	ClockReads++
+	clockSteps++ // a clock read is itself an event: two reads never return the same instant
+	return clockBase + int64(clockSteps)*1000
+}
+
+// ClockAdvance moves the simulated clock forward (harness: between passes).
+//
+//go:norace
+func ClockAdvance(d int64) { clockBase += d }
+
+var clockJumps = [...]int64{int64(1e9), int64(61e9), int64(3601e9), int64(86401e9), int64(40 * 86400e9)}
+
 //go:norace
 func faults(site uint32) {
+	if cfg.ClockPerm > 0 && rng.Intn(1000) < cfg.ClockPerm {
+		j := clockJumps[rng.Intn(len(clockJumps))]
+		clockBase += j
+		stats.ClockJumps++
+		recordDecision(Decision{Step: step, Task: cur, Kind: DClock, V: j})
+	}
 	if cfg.GCPermil > 0 && rng.Intn(1000) < cfg.GCPermil {
 		recordDecision(Decision{Step: step, Task: cur, Kind: DGC})
 		stats.GCs++
@@ -607,6 +644,10 @@ func replayStep(site uint32) {
 			recordDecision(d)
 			stats.GCs++
 			runtime.GC()
+		case DClock:
+			recordDecision(d)
+			stats.ClockJumps++
+			clockBase += d.V
 		case DSwitch:
 			if d.Task >= 0 && int(d.Task) < nTasks && status[d.Task] == stRunnable && d.Task != cur {
 				switchTo(d.Task, site)
